@@ -45,6 +45,32 @@ type storeProxy struct {
 	mu    sync.Mutex
 	spans [][2]uint64
 	calls []string
+	stall bool // every read blocks until its context ends (a stalled datastore)
+}
+
+func (p *storeProxy) stalled(ctx context.Context) error {
+	p.mu.Lock()
+	st := p.stall
+	p.mu.Unlock()
+	if !st {
+		return nil
+	}
+	<-ctx.Done()
+	return ctx.Err()
+}
+
+func (p *storeProxy) Head(ctx context.Context, opts ...header.HeadOption[*vh.Header]) (*vh.Header, error) {
+	if err := p.stalled(ctx); err != nil {
+		return nil, err
+	}
+	return p.Store.Head(ctx, opts...)
+}
+
+func (p *storeProxy) Get(ctx context.Context, h header.Hash) (*vh.Header, error) {
+	if err := p.stalled(ctx); err != nil {
+		return nil, err
+	}
+	return p.Store.Get(ctx, h)
 }
 
 func (p *storeProxy) note(s string) {
@@ -57,6 +83,9 @@ func (p *storeProxy) GetRange(ctx context.Context, from, to uint64) ([]*vh.Heade
 	p.mu.Lock()
 	p.spans = append(p.spans, [2]uint64{from, to})
 	p.mu.Unlock()
+	if err := p.stalled(ctx); err != nil {
+		return nil, err
+	}
 	return p.Store.GetRange(ctx, from, to)
 }
 
@@ -64,6 +93,9 @@ func (p *storeProxy) GetByHeight(ctx context.Context, h uint64) (*vh.Header, err
 	p.mu.Lock()
 	p.spans = append(p.spans, [2]uint64{h, h + 1})
 	p.mu.Unlock()
+	if err := p.stalled(ctx); err != nil {
+		return nil, err
+	}
 	return p.Store.GetByHeight(ctx, h)
 }
 
